@@ -91,7 +91,7 @@ def run(ctx, model_ok):
         base = len(f) - 64 * len(evs)
         proc = rng.choice([str(threads[0][1]), threads[0][2].decode() or 'Safari', 'Safari', 'xpcproxy'])
         cfgs = [{'color': False, 'filter_process': proc}, {'color': False, 'filter_tid': threads[0][0]},
-                {'color': False, 'filter_class': [4], 'filter_process': proc}]
+                {'color': False, 'filter_class': [4], 'filter_process': proc}, {'color': True}]
         for cfg in cfgs:
             ks = [base + 64 * j for j in range(len(evs) + 1)]
             reqs = [{'file': f[:k].hex(), 'cfg': cfg, 'calls': ['formatted_traces']} for k in ks]
